@@ -218,6 +218,9 @@ def run_case(case, ctx):
         sentinel = b"previous content of the output path " * 7
         with open(out, "wb") as fh:
             fh.write(sentinel)
+    if case["kind"] == "valid":
+        from .. import conv
+        conv.leave_stale(out, repr(case["box"]) + repr(case["file"]["shape"]))
     out2, box2, exc2 = os.path.join(d, "crop2.sgz"), None, None
     cropper = SgzCropper(path)
     try:
